@@ -998,9 +998,9 @@ MANIFEST = dict(
         "unordered source (directory listing, imap_unordered) reaches only order-insensitive folds, sorted containers "
         "or per-item outputs; workers are free of global state and shared-argument mutation; the serial and pooled "
         "branches are the same application. Plus the structural part of batch-size independence and unit kinds. "
-        "Necessary conditions of C17; that paired commands invert each other on data is not decided."),
+        "Necessary conditions of C17; that paired commands invert each other on data is not decided. The validator of the shared --num-workers option admits 0, the value the dispatcher's serial branch tests for (validator resolved in argcheck, admitted range from a closed table of its checks)."),
     level_note="Trusted: python ast; multiprocessing.Pool semantics (each item processed once). F2 (suffix filter used "
                "the prefix; --file-suffix unread) was found by G4/G7 and repaired.",
-    technique="static analysis: unordered-source to order-sensitive-sink flow analysis, effect analysis of worker functions, option-consumption and affix-kind lints, argument binding; interpretation of the ali length-moments worker over exact tensors for 0-3 excluded ids; ali <-> token workers interpreted against a modelled directory (round trip and refusals)",
+    technique="static analysis: unordered-source to order-sensitive-sink flow analysis, effect analysis of worker functions, option-consumption and affix-kind lints, argument binding; interpretation of the ali length-moments worker over exact tensors for 0-3 excluded ids; ali <-> token workers interpreted against a modelled directory (round trip and refusals); option-validator range table against the dispatcher's serial test",
     design_ref="DESIGN.md section 4 C17",
 )
